@@ -1,8 +1,9 @@
 import VlsModel.Drv.Common
-/- Line-protocol models serving property C10 (none yet). -/
+import VlsModel.Drv.NodeReq
+/- Line-protocol models serving properties C10 and C11. -/
 namespace VlsModel.Drv.C10
 open VlsModel.Drv
 
-def models : List (String × Model) := []
+def models : List (String × Model) := [ ("nodereq", NodeReq.model) ]
 
 end VlsModel.Drv.C10
